@@ -21,6 +21,8 @@ pub enum SymOp {
     Put { idx: usize, class: u8, slot: Option<usize> },
     PutPart { idx: usize, sub: usize, part: usize, class: u8, slot: Option<usize> },
     PutRaw { frame: usize, order: usize, class: u8, slot: Option<usize> },
+    /// setup only: allocate one base frame in every row of tree `t`
+    Frag { t: usize },
     Drain,
     Change { id: Option<usize>, mclass: Option<u8>, mfree: usize, cclass: Option<u8>, cop: u8 },
 }
@@ -65,6 +67,7 @@ impl SymOp {
             },
             "putraw" => SymOp::PutRaw { frame: ui(&a[1]), order: ui(&a[2]), class: ui(&a[3]) as u8, slot: oi(&a[4]) },
             "drain" => SymOp::Drain,
+            "frag" => SymOp::Frag { t: ui(&a[1]) },
             "change" => SymOp::Change {
                 id: oi(&a[1]), mclass: oi(&a[2]).map(|x| x as u8), mfree: ui(&a[3]),
                 cclass: oi(&a[4]).map(|x| x as u8), cop: ui(&a[5]) as u8,
@@ -132,6 +135,7 @@ fn resolve(op: &SymOp, held: &Held) -> Option<(Op, Option<(usize, usize)>)> {
         }
         SymOp::PutRaw { frame, order, class, slot } => Some((Op::Put(frame, order, class, slot), None)),
         SymOp::Drain => Some((Op::Drain, None)),
+        SymOp::Frag { .. } => None,
         SymOp::Change { id, mclass, mfree, cclass, cop } => Some((Op::Change(id, mclass, mfree, cclass, cop), None)),
     }
 }
@@ -242,6 +246,18 @@ pub fn execute(scn: &Scenario, strat: &mut Strategy, opts: &ExecOpts, out_setup:
     }
     let mut setup_held: Held = vec![];
     for op in &scn.setup {
+        if let SymOp::Frag { t } = op {
+            for r in 0..(TF / 64) {
+                let f = t * TF + r * 64 + 1;
+                if f < w.frames {
+                    let cop = Op::Get(0, 0, None, Some(f));
+                    let res = exec(w.a(), &cop);
+                    let obs = w.obs(false);
+                    setup_events.push(merge(merge(cop.to_json(), res), json!({"ev":"sc","obs":obs})));
+                }
+            }
+            continue;
+        }
         let Some((cop, _)) = resolve(op, &setup_held) else { continue };
         let res = exec(w.a(), &cop);
         let obs = w.obs(false);
@@ -710,6 +726,15 @@ pub fn dump_scenario(scn: &Scenario) -> Value {
     let mut setup_held: Held = vec![];
     hook::set_mode(hook::OFF);
     for op in &scn.setup {
+        if let SymOp::Frag { t } = op {
+            for r in 0..(TF / 64) {
+                let f = t * TF + r * 64 + 1;
+                if f < w.frames {
+                    exec(w.a(), &Op::Get(0, 0, None, Some(f)));
+                }
+            }
+            continue;
+        }
         let Some((cop, _)) = resolve(op, &setup_held) else { continue };
         let res = exec(w.a(), &cop);
         if res["res"] == "ok" {
